@@ -16,6 +16,11 @@
 //     2n additions dem carries <= (2n+2) u (1+o(1)); coords = fl(fl(dem hi) + fl(fl(1-dem) lo))
 //     adds (|lo|+|hi|) 3u.  Total <= (2n+5) u (|lo|+|hi|) <= 2^-18 (|lo|+|hi|) for n <= 29
 //     cells per bin; the generator keeps n <= 24.
+// (a') grid stream: DensityGrid::fromIspdCircuit on vc::genCircuit circuits (any row widths, so the
+//     fallbacks for "the margin removes every row" are hit) with size/margin factors k/8 (exact float
+//     products); impl prints placement area and bin limits, the driver recomputes them from the circuit
+//     (shared Freespace model -> clipRows -> gridRegions -> computeSubdivisions).  Direct oracle: every
+//     bin limit inside the rows' bounding box.
 // (b) direct oracle on Circuit::placeGlobal(params, callback), one forked child per case:
 //     * at every UpperBound callback each movable cell's exposed centre x + placedWidth/2 lies in
 //       the rows' bounding box enlarged by 1/2 (the exposed x is round(ub - w/2), so the exposed
@@ -285,6 +290,7 @@ struct Case {
   std::string desc;
   int effort = 0;
   int nZeroArea = 0;
+  int redrawn = 0;
 };
 
 static double uni(vh::Rng &g, double lo, double hi) { return lo + (hi - lo) * (g.range(0, 1 << 20) / (double)(1 << 20)); }
@@ -328,7 +334,7 @@ static ColoquinteParameters genC06Params(vh::Rng &g, std::string &desc, int &eff
     pe.areaExponent = uni(g, 0.49, 1.01);
     pe.initialValue = logUni(g, 1.0e-3, 10.0);
     pe.updateFactor = uni(g, 1.01, 1.99);
-    pe.targetBlending = uni(g, 0.1, 1.1);
+    pe.targetBlending = uni(g, (double)0.1f, 1.1);   // check() compares with the float literals 0.1f / 1.1f
     auto &rl = gp.roughLegalization;
     rl.costModel = (LegalizationModel)g.range(0, 5);
     rl.nbSteps = g.range(0, 3);
@@ -348,7 +354,7 @@ static ColoquinteParameters genC06Params(vh::Rng &g, std::string &desc, int &eff
       rl.squareReoptOverlap = 1;
     }
     rl.quadraticPenalty = g.chance(1, 3) ? 0.0 : logUni(g, 1.0e-4, 1.0);
-    rl.targetBlending = uni(g, -0.1, 0.9);
+    rl.targetBlending = uni(g, -0.1, (double)0.9f);  // check(): > 0.9f is rejected
     rl.sideMargin = g.chance(1, 2) ? 0.9 : uni(g, 0.0, 0.9);
     rl.coarseningLimit = logUni(g, 1.0, 1000.0);
   }
@@ -405,7 +411,10 @@ static Case genCase(uint64_t seed, long long k, bool bigger) {
     c.setCellHeight(h);
   }
   std::string pd;
-  cs.params = genC06Params(g, pd, cs.effort, bigger);
+  for (;;) {  // the domain is "accepted by the parameter check": redraw in the (unexpected) case of a rejection
+    cs.params = genC06Params(g, pd, cs.effort, bigger);
+    try { cs.params.check(); break; } catch (const std::exception &) { cs.redrawn++; }
+  }
   cs.desc = pd;
   return cs;
 }
@@ -586,6 +595,7 @@ static void oracleCase(vh::Out &out, uint64_t seed, long long k, bool bigger, co
   out.count("e2e_movable_" + std::string(cs.info.nMovable <= 3 ? "1-3" : (cs.info.nMovable <= 8 ? "4-8" : "9+")));
   if (cs.info.nFixed) out.count("e2e_with_fixed");
   if (cs.nZeroArea) out.count("e2e_with_zero_area_movable_cells");
+  if (cs.redrawn) out.count("e2e_params_redrawn_after_check_rejection", cs.redrawn);
   if (cs.info.utilisation > 1.0) out.count("e2e_overfull");
   if (st != "ok") {
     out.fail(id, "placeGlobal did not complete: " + st + " — " + diag.substr(0, 600), input);
